@@ -25,6 +25,10 @@ type Case struct {
 	// Crash: the partial progress is the state a crash leaves (the write that records the failing
 	// statement's error is lost), i.e. a partial revision WITHOUT an error text.
 	Crash bool `json:"crash,omitempty"`
+	// K0 > 0: the partial progress K is reached in two failing attempts (first stop after K0
+	// statements, the resumed attempt stops after K), so part of the recorded progress was written by
+	// a RESUMED run.
+	K0 int `json:"k0,omitempty"`
 }
 
 func init() {
@@ -49,7 +53,7 @@ func init() {
 func orig(n int) []string {
 	o := make([]string, n)
 	for i := range o {
-		o[i] = fmt.Sprintf("S%d;", i+1)
+		o[i] = fmt.Sprintf("SELECT 's%d  x';", i+1) // two blanks inside the literal: a whitespace-only edit is an edit
 	}
 	return o
 }
@@ -81,6 +85,20 @@ func one(cs Case) (why, key string, trace []string) {
 	write(dir, cs, o)
 	w := world.New()
 	w.FailExec = cs.Extra + cs.K + 1
+	if cs.K0 > 0 {
+		// first attempt stops after K0 statements …
+		w.FailExec = cs.Extra + cs.K0 + 1
+		ex0, err := migrate.NewExecutor(w, dir, w)
+		if err != nil {
+			return "NewExecutor: " + err.Error(), "setup", nil
+		}
+		if err := ex0.ExecuteN(context.Background(), 0); err == nil {
+			return "setup: first failing run did not fail", "setup", nil
+		}
+		// … the resumed attempt executes statements K0+1..K and fails at K+1
+		w.ExecN, w.WriteN = 0, 0
+		w.FailExec = cs.K - cs.K0 + 1
+	}
 	if cs.Crash {
 		// writes so far: 3 per complete single-statement file, then 1 (started) + K (per statement);
 		// the next one is the deferred write that would record the error: lose it.
@@ -203,12 +221,23 @@ func run(c *rt.Ctx) {
 						if k > 0 {
 							cases = append(cases, Case{N: n, K: k, Edit: name, Out: out, Extra: extra, Style: style, Crash: true})
 						}
+						if k >= 2 && extra == 0 {
+							for k0 := 1; k0 < k; k0++ {
+								cases = append(cases, Case{N: n, K: k, K0: k0, Edit: name, Out: out, Extra: extra, Style: style})
+							}
+						}
 					}
 					for i := 0; i < n; i++ {
 						ch := append([]string(nil), o...)
-						ch[i] = fmt.Sprintf("C%d;", i+1)
+						ch[i] = fmt.Sprintf("SELECT 'c%d  x';", i+1)
 						add(fmt.Sprintf("change@%d", i), ch)
 						add(fmt.Sprintf("delete@%d", i), append(append([]string(nil), o[:i]...), o[i+1:]...))
+						ws := append([]string(nil), o...)
+						ws[i] = strings.Replace(ws[i], "  x", " x", 1) // one blank less inside the string literal
+						add(fmt.Sprintf("whitespace@%d", i), ws)
+						ws2 := append([]string(nil), o...)
+						ws2[i] = strings.Replace(ws2[i], "  x", "\tx", 1)
+						add(fmt.Sprintf("whitespace-tab@%d", i), ws2)
 						for j := i + 1; j < n; j++ {
 							sw := append([]string(nil), o...)
 							sw[i], sw[j] = sw[j], sw[i]
@@ -243,7 +272,10 @@ func run(c *rt.Ctx) {
 		}
 		c.Count("edit:"+kind, 1)
 		c.Count("class:"+cls, 1)
-		c.Eval(rt.Digest(cs.N, cs.K, cs.Edit, cs.Extra, cs.Style, cs.Crash, tr), cs.Edit != "none")
+		c.Eval(rt.Digest(cs.N, cs.K, cs.K0, cs.Edit, cs.Extra, cs.Style, cs.Crash, tr), cs.Edit != "none")
+		if cs.K0 > 0 {
+			c.Count("setup:two-stage(progress partly recorded by a resumed run)", 1)
+		}
 		if cs.Crash {
 			c.Count("setup:crash-state(no error text)", 1)
 		}
